@@ -67,13 +67,13 @@ func rulePerSegmentStateReset(r *Report, rule string) {
 						continue
 					}
 					obj := info.ObjectOf(id)
-					if obj == nil || (obj.Pos() >= rs.Body.Pos() && obj.Pos() <= rs.Body.End()) {
+					if obj == nil || declaredWithin(info, rs.Body, obj) {
 						continue
 					}
 					if _, isVar := obj.(*types.Var); !isVar {
 						continue
 					}
-					if obj.Pos() < fi.Decl.Body.Pos() { // parameters / named results
+					if isSigVar(fi, obj) { // parameters / named results
 						continue
 					}
 					cand[obj] = append(cand[obj], as)
